@@ -386,10 +386,18 @@ def run_noninterference(ctx):
 
     def run(d, rec):
         tr, te, ce = sets_for(d)
-        res = crossval([model], d, tr, te, ceil_set=ce, method=method, fitter=rec, pattern_descriptor=pdname,
-                       calc_noise_ceil=False)
+        # (test sets of fewer than three conditions are marked NaN by crossval; a noise ceiling of a one-entry RDM is
+        # undefined for corr and raises -- degenerate input, C07's business, so no ceiling is asked for there)
+        cc = calc_ceil and all(t[0].n_cond >= 3 for t in te)
+        res = crossval([model], d, tr, te, ceil_set=ce if pass_ceil else None, method=method, fitter=rec,
+                       pattern_descriptor=pdname, calc_noise_ceil=cc)
         return tr, te, res
-    sig = dict(fitter=which, method=method, k=f'{k_r}x{k_p}', rdm_grouping=rgk, pattern_grouping=pgk, scheme=scheme)
+    # the generators' ceil_set is optional for crossval (default None), and so is the noise ceiling: the fold's score
+    # must rest on the fold's own test set whichever way the call is written
+    pass_ceil = bool(rng.integers(2))
+    calc_ceil = bool(rng.integers(2))
+    sig = dict(fitter=which, method=method, k=f'{k_r}x{k_p}', rdm_grouping=rgk, pattern_grouping=pgk, scheme=scheme,
+               ceil_set='passed' if pass_ceil else 'omitted', noise_ceiling=calc_ceil)
     wit = lambda **k: dict(data=data_v, basis=basis, pgrp=pg, rgrp=rg, k_rdm=k_r, k_pattern=k_p, seed=seed,  # noqa
                            fitter=which, method=method, **k)
     base = mk(data_v)
